@@ -81,6 +81,32 @@ Definition choice_ok (c : enc_choice) : bool :=
 
 Definition event_ok (cm : enc_choice * str) : bool := choice_ok (fst cm) && msg_ok (snd cm).
 
+(** Events WITHOUT data between the messages: a typed event that carries no data field (a keep-alive such as
+    "event: ping" followed by the blank line) and a block that holds only a comment.  Per the SSE format nothing is
+    dispatched for them, and the event type such a block sets does NOT stick to the events that follow. *)
+Inductive noise : Type :=
+| NTyped (name : str)        (* "event:" [" "] name, blank line *)
+| NCommentOnly (s : str).    (* ":" s, blank line *)
+
+Definition noise_lines (c : enc_choice) (n : noise) : list str :=
+  match n with
+  | NTyped name => [k_event ++ sp c ++ name; []]
+  | NCommentOnly s => [58 :: s; []]
+  end.
+
+Definition noise_ok (n : noise) : bool :=
+  match n with NTyped s | NCommentOnly s => line_safe s end.
+
+(** One message event preceded by its data-less events, all under the same spelling choices. *)
+Definition encode_noisy_event (ns : list noise) (c : enc_choice) (m : str) : str :=
+  flat_map (fun l => l ++ eol c) (flat_map (noise_lines c) ns ++ event_lines c m).
+
+Definition sse_encode_noisy (l : list (list noise * (enc_choice * str))) : str :=
+  flat_map (fun x => encode_noisy_event (fst x) (fst (snd x)) (snd (snd x))) l.
+
+Definition noisy_event_ok (x : list noise * (enc_choice * str)) : bool :=
+  forallb noise_ok (fst x) && event_ok (snd x).
+
 (* ------------------------------------------------------------------ *)
 (** * 2. Exactly one terminal message                                   *)
 (* ------------------------------------------------------------------ *)
